@@ -66,7 +66,7 @@ func (rl *RangeLoop) Iterate() inspector.LoopCtl {
 	}
 
 	if rl.cntr > 0 && len(rl.node.loopSep) > 0 {
-		if _, rl.err = rl.w.Write(rl.node.loopSep); rl.err != nil {
+		if rl.err = rl.tpl.writeRaw(rl.w, rl.node.loopSep, rl.ctx); rl.err != nil {
 			return inspector.LoopCtlBrk
 		}
 	}
